@@ -130,13 +130,25 @@ func init() {
 			return goCalleeOf(p, func(f *ssa.Function) bool { return recvIs(f, L, "Server") && f.Name() == "Run" })
 		}},
 		{Canon: L + ".decodeLengthEncodedStrings", Find: func(p *an.Prog) *ssa.Function {
-			return uniqueIn(p, L, func(f *ssa.Function) bool { return callsSuffix(f, "bufio.NewScanner") })
+			if f := uniqueIn(p, L, func(f *ssa.Function) bool { return callsSuffix(f, "bufio.NewScanner") }); f != nil {
+				return f
+			}
+			// the reader form has no scanner: the frame decoder is the function (reader, parts []string) error
+			return uniqueIn(p, L, func(f *ssa.Function) bool {
+				sg := f.Signature
+				return sg.Recv() == nil && sg.Params().Len() == 2 && sg.Results().Len() == 1 && sg.Params().At(0).Type().String() == "io.Reader" && sg.Params().At(1).Type().String() == "[]string" && sg.Results().At(0).Type().String() == "error"
+			})
 		}},
 		{Canon: L + ".encodeLengthEncodedStrings", Find: func(p *an.Prog) *ssa.Function {
 			return uniqueIn(p, L, func(f *ssa.Function) bool { return callsSuffix(f, "bigEndian).PutUint16") })
 		}},
 		{Canon: L + ".scanLengthEncodedString", Find: func(p *an.Prog) *ssa.Function {
-			return uniqueIn(p, L, func(f *ssa.Function) bool { return callsSuffix(f, "bigEndian).Uint16") })
+			// the split function renamed: still a bufio.SplitFunc. A helper of another shape that happens to read a
+			// big-endian length (the per-part reader of an io.ReadFull-based decoder) is not "the split function renamed":
+			// it is interpreted inline in the decoder, whose reader-form rules (c131decReader) then apply to it.
+			return uniqueIn(p, L, func(f *ssa.Function) bool {
+				return callsSuffix(f, "bigEndian).Uint16") && f.Signature.Recv() == nil && f.Signature.Params().Len() == 2 && f.Signature.Results().Len() == 3
+			})
 		}},
 		// ---- agent
 		{Canon: M + ".callback", Find: func(p *an.Prog) *ssa.Function {
